@@ -6,6 +6,14 @@ use crate::ins::Ins;
 use crate::model::*;
 use crate::spec::*;
 
+/// the fingerprint pair of a body (it may sit anywhere at top level)
+fn magic_pair(body: &[Ins]) -> Vec<Ins> {
+    match func_magic_of(body) {
+        Some(m) => vec![Ins::I64Const(m), Ins::Drop],
+        None => body.iter().take(2).cloned().collect(),
+    }
+}
+
 fn still_fails(id: &str, sc: &Scenario, sig: &str, hs: usize) -> bool {
     if validate(&sc.base.to_bytes()).is_err() {
         return false;
@@ -169,7 +177,7 @@ pub fn minimize(id: &str, sc0: &Scenario, sig: &str, hs: usize) -> Scenario {
             let mut cand = sc.clone();
             match &mut cand.clients[c][i] {
                 Op::BuildFunc { body, results, locals, .. } | Op::ReplaceImport { body, results, locals, .. } => {
-                    let mut b: Vec<Ins> = body.iter().take(2).cloned().collect();
+                    let mut b: Vec<Ins> = magic_pair(body);
                     for r in results.iter() {
                         b.push(r.default_ins());
                     }
@@ -197,7 +205,7 @@ pub fn minimize(id: &str, sc0: &Scenario, sig: &str, hs: usize) -> Scenario {
             // minimal bodies
             for k in 0..m.funcs.len() {
                 let res = m.func_sig(m.funcs[k].ty).map(|s| s.1).unwrap_or_default();
-                let mut b: Vec<Ins> = m.funcs[k].body.iter().take(2).cloned().collect();
+                let mut b: Vec<Ins> = magic_pair(&m.funcs[k].body);
                 for r in res {
                     b.push(r.default_ins());
                 }
@@ -222,7 +230,7 @@ pub fn minimize(id: &str, sc0: &Scenario, sig: &str, hs: usize) -> Scenario {
     for k in 0..sc.base.funcs.len() {
         let mut cand = sc.clone();
         let res = cand.base.func_sig(cand.base.funcs[k].ty).map(|s| s.1).unwrap_or_default();
-        let mut b: Vec<Ins> = cand.base.funcs[k].body.iter().take(2).cloned().collect();
+        let mut b: Vec<Ins> = magic_pair(&cand.base.funcs[k].body);
         for r in res {
             b.push(r.default_ins());
         }
